@@ -373,3 +373,37 @@ func VerifC18NestedDropIndex() {
 	nd.Assert(o1 == o2, "nested-drop-index-same-output")
 	nd.Reach("C18.nesteddropindex")
 }
+
+// VerifC18MapIndexReps: an ordered YAML map is looked up exactly as a map with the same entries, for
+// every kind of index: only the key itself finds an entry (an integer, boolean or float that merely
+// prints like a string key does not).
+func VerifC18MapIndexReps() {
+	var idx any
+	switch nd.Choice(8) {
+	case 0:
+		idx = nd.IntIn(0, 3)
+	case 1:
+		idx = true
+	case 2:
+		idx = 2.5
+	case 3:
+		idx = nil
+	case 4:
+		idx = []string{"1", "true", "2.5", "k", "zz"}[nd.Choice(5)]
+	case 5:
+		idx = c18Drop{"k"}
+	case 6:
+		idx = c18Drop{1}
+	case 7:
+		idx = int8(1)
+	}
+	v := nd.IntIn(0, 9)
+	plain := map[string]any{"1": v, "true": "T", "2.5": "F", "k": "K", "<nil>": "N"}
+	ordered := yaml.MapSlice{{Key: "1", Value: v}, {Key: "true", Value: "T"}, {Key: "2.5", Value: "F"}, {Key: "k", Value: "K"}, {Key: "<nil>", Value: "N"}}
+	t := "[{{ m[i] }}]{% if m contains i %}c{% endif %}{{ m[i] | size }}"
+	o1, e1 := vRender(t, Bindings{"m": plain, "i": idx})
+	o2, e2 := vRender(t, Bindings{"m": ordered, "i": idx})
+	nd.Assert(e1 == nil && e2 == nil, "map-index-reps-no-error")
+	nd.Assert(o1 == o2, "ordered-map-looked-up-like-a-map")
+	nd.Reach("C18.mapindexreps")
+}
